@@ -16,6 +16,7 @@ INNERS = {
     # two dynamically sized fields: objects of equal total size can split it differently between x and y
     "Inner2": [("k", ("sc", "Int64")), ("x", ("arr", "Int32", (None,))), ("y", ("arr", "Int32", (None,)))],
     "Mid": [("z", ("sc", "Int16")), ("inn", ("hyb", "Inner"))],  # a nested class that nests another one (three levels)
+    "MidR": [("k", ("sc", "Int64")), ("r", ("ref", "Inner"))],  # a nested class that HOLDS A REFERENCE
 }
 SPLITS = {"outer": (2, 3), "same": (2, 3), "other": (4, 1)}  # equal total sizes (Int32 items, slot rounding); "other" splits the room differently: refused
 OUTERS = {
@@ -33,6 +34,7 @@ OUTERS = {
     "O12": [("mid", ("hyb", "Mid")), ("t", ("sc", "Float64"))],
     # a part nested by value and a reference of the same class: the part can be lent to the reference field
     "O13": [("inner", ("hyb", "Inner")), ("r", ("ref", "Inner"))],
+    "O14": [("mid", ("hyb", "MidR")), ("t", ("sc", "Float64"))],
 }
 RENAMES = ["none", "first", "all"]
 
@@ -99,6 +101,10 @@ def get_classes(oname, rename):
     return _classes[key]
 
 
+def holds_refs(cname):
+    return any(fs[0] == "ref" or (fs[0] == "hyb" and holds_refs(fs[1])) for _, fs in (OUTERS.get(cname) or INNERS[cname]))
+
+
 def field_specs(cname):
     return dict(OUTERS.get(cname) or INNERS[cname])
 
@@ -143,6 +149,13 @@ class World:
                     m = inner2_value(20 + len(self.helpers), SPLITS[where])
                 h = self.Inner[nm](_buffer=buf, **pycopy.deepcopy(m))
                 self.helpers[(nm, where)] = self.add(nm, h, m)
+        # helpers that hold a reference refer to the Inner helper of their own buffer
+        for (nm, where), hid in self.helpers.items():
+            for fn, fs in INNERS[nm]:
+                if fs[0] == "ref":
+                    tid = self.helpers[(fs[1], where)]
+                    setattr(self.objs[hid]["h"], fn, self.objs[tid]["h"])
+                    self.objs[hid]["m"][fn] = ("id", tid)
         m = {fn: default_value(fs, 3 + i) for i, (fn, fs) in enumerate(OUTERS[oname])}
         kw = {self.ren.get(fn, fn): pycopy.deepcopy(v) for fn, v in m.items()}
         self.outer = self.add(oname, self.Outer(_buffer=self.B, **kw), m)
@@ -165,6 +178,17 @@ class World:
         i = len(self.objs) + 1
         self.objs[i] = dict(cname=cname, h=h, m=model, movable=True)
         return i
+
+    def dup_refs(self, cname, m):
+        """model of a value that crossed buffers: references cannot be shared, the value owns duplicates of the referents"""
+        specs = OUTERS.get(cname) or INNERS[cname]
+        for fn, fs in specs:
+            if fs[0] == "ref" and m[fn] is not None:
+                src = m[fn]
+                m[fn] = ("dup", pycopy.deepcopy(self.objs[src[1]]["m"] if src[0] == "id" else self.objs[src[1]]["m"][src[2]] if src[0] == "nested" else src[1]))
+            elif fs[0] == "hyb":
+                self.dup_refs(fs[1], m[fn])
+        return m
 
     def referenced(self, sid):
         return any(isinstance(v, tuple) and v[:2] == ("id", sid) for o in self.objs.values() for v in o["m"].values())
@@ -263,6 +287,8 @@ class World:
                 raise AssertionError("by-value assignment that splits the room of the nested part differently accepted")
             setattr(o["h"], self.pyname(oid, fn), src["h"])
             o["m"][fn] = pycopy.deepcopy(src["m"])
+            if src["h"]._buffer is not o["h"]._buffer:
+                self.dup_refs(fs[1], o["m"][fn])
         elif kind == "ref-bind":
             _, oid, fn, where = ev
             o = self.objs[oid]
@@ -320,13 +346,11 @@ class World:
             m = pycopy.deepcopy(o["m"])
             if ev[1] != "same":
                 # references cannot be shared across buffers: the copy owns duplicates
-                for fn, fs in OUTERS[self.oname]:
-                    if fs[0] == "ref" and m[fn] is not None:
-                        m[fn] = ("dup", pycopy.deepcopy(self.objs[m[fn][1]]["m"] if m[fn][0] == "id" else self.objs[m[fn][1]]["m"][m[fn][2]] if m[fn][0] == "nested" else m[fn][1]))
+                self.dup_refs(self.oname, m)
             self.copies.append(self.add(self.oname, c, m))
         elif kind == "move":
             o = self.objs[self.outer]
-            has_refs = any(fs[0] == "ref" for _, fs in OUTERS[self.oname])
+            has_refs = holds_refs(self.oname)
             kw = dict(other=dict(_buffer=self.F), ctx=dict(_buffer=self.C))[ev[1]]
             try:
                 o["h"].move(**kw)
